@@ -5,7 +5,7 @@
 (*   mpq1  every mpq sub-command x input class x option flag on a prepared archive                  *)
 (*   pipe  mpq create ; list ; info ; extract over file sets x version x compression x listfile x   *)
 (*         threads x preserve-paths x explicit names (all / some / incl. a missing one) x skip-errors *)
-(*         x patch chain (thorough: the whole product; quick: a seed-rotated 1/32 of it)                           *)
+(*         x patch chain x pre-state of the extraction directory (thorough: a seed-rotated 1/4 of the product; quick: 1/128)                           *)
 EXTENDS Cli, Json, IOUtils, SequencesExt
 
 Thorough == IOEnv.VERIF_TIER = "thorough"
@@ -26,34 +26,46 @@ VariantCount(k) == CASE k = "dbc" -> 5 [] k = "blp" -> 8 [] k = "m2" -> 5 [] k =
 HasFlagged(k) == k \in {"blp", "m2", "wmo_root", "skin", "dbc"}      \* dbc: a schema with one field too many
 Variants(k) == IF Thorough THEN 0..(VariantCount(k) - 1) ELSE {SeedN % VariantCount(k)}
 
-Fmt == {[mode |-> "fmt", fam |-> f, cmd |-> c, kind |-> k, input |-> inp, variant |-> v, opt |-> o]
-        : f \in Families \ {"mpq"}, c \in UNION {Cmds(g) : g \in Families \ {"mpq"}}, k \in {"dbc", "blp", "m2", "skin", "anim", "wmo_root", "wmo_group", "adt", "wdt", "wdl"},
-          inp \in Inputs, v \in 0..7, o \in 0..1}
-FmtCases == {x \in Fmt : /\ x.cmd \in Cmds(x.fam) /\ x.kind \in KindsOf(x.fam, x.cmd)
-                         /\ x.variant \in Variants(x.kind)
-                         /\ (x.input = "flagged" => HasFlagged(x.kind))}
+\* option flags per sub-command: listings get every output-format option
+Opts(f, c) == IF <<f, c>> = <<"mpq", "list">> THEN 0..3          \* plain, --long, --filter, --long --filter
+              ELSE IF <<f, c>> = <<"wdt", "tiles">> THEN 0..2     \* text, csv, json
+              ELSE 0..1
+\* kinds with a file that violates only the rule a validate flag switches on (blp --strict, wdl --version)
+HasFlagViol(k) == k \in {"blp", "wdl"}
+\* pre-states of the output location: every producer on valid input meets all of them
+Pres(f, c, inp) == IF Producer(f, c) /\ inp = "valid" THEN PreStates ELSE {"empty"}
 
-Mpq1Cases == {[mode |-> "mpq1", fam |-> "mpq", cmd |-> c, kind |-> "mpq", input |-> inp, variant |-> v, opt |-> o]
-              : c \in Cmds("mpq"), inp \in Inputs, v \in (IF Thorough THEN 0..3 ELSE {SeedN % 4}), o \in 0..1}
-             \ {x \in [mode : {"mpq1"}, fam : {"mpq"}, cmd : {"create"}, kind : {"mpq"}, input : Inputs, variant : 0..3, opt : 0..1]
-                  : x.input \notin {"valid", "nonexistent"}}
+VariantsFor(k, inp) == IF inp = "flagviol" THEN (IF Thorough THEN 0..2 ELSE {SeedN % 3}) ELSE Variants(k)
+InputsFor(c, k) == {inp \in Inputs : /\ (inp = "flagviol" => (HasFlagViol(k) /\ c = "validate"))
+                                     /\ (inp = "flagged" => HasFlagged(k))}
+FmtCases == UNION {UNION {UNION {
+               {[mode |-> "fmt", fam |-> fc[1], cmd |-> fc[2], kind |-> k, input |-> inp, variant |-> v, opt |-> o, pre |-> pr]
+                  : v \in VariantsFor(k, inp), o \in Opts(fc[1], fc[2]), pr \in Pres(fc[1], fc[2], inp)}
+               : inp \in InputsFor(fc[2], k)} : k \in KindsOf(fc[1], fc[2])} : fc \in {x \in AllCmds : x[1] # "mpq"}}
+
+Mpq1All == {[mode |-> "mpq1", fam |-> "mpq", cmd |-> c, kind |-> "mpq", input |-> inp, variant |-> v, opt |-> o, pre |-> pr]
+            : c \in Cmds("mpq"), inp \in Inputs \ {"flagviol"}, v \in (IF Thorough THEN 0..3 ELSE {SeedN % 4}), o \in 0..3, pr \in PreStates}
+Mpq1Cases == {x \in Mpq1All : /\ x.opt \in Opts("mpq", x.cmd) /\ x.pre \in Pres("mpq", x.cmd, x.input)
+                              /\ (x.cmd = "create" => x.input \in {"valid", "nonexistent"})}
 
 FileSets == {"one", "few", "many"}
 Versions == {"v1", "v2", "v3", "v4"}
 Compressions == {"none", "zlib", "bzip2", "lzma"}
 Pipe == {[mode |-> "pipe", fam |-> "mpq", cmd |-> "pipeline", files |-> fs, version |-> ver, compression |-> co, listfile |-> lf,
-          threads |-> th, preserve |-> pr, explicit |-> ex, skip |-> sk, chain |-> ch]
-         : fs \in FileSets, ver \in Versions, co \in Compressions, lf \in BOOLEAN, th \in {0, 1, 4}, pr \in BOOLEAN,
+          threads |-> th, preserve |-> pr, explicit |-> ex, skip |-> sk, chain |-> ch, pre |-> pe]
+         : pe \in PreStates, fs \in FileSets, ver \in Versions, co \in Compressions, lf \in BOOLEAN, th \in {0, 1, 4}, pr \in BOOLEAN,
            ex \in {"all", "some", "missing"}, sk \in BOOLEAN, ch \in BOOLEAN}
 \* quick: a residue class of a weighted sum of the option codes (every value of every dimension occurs, rotating with the seed)
 B(b) == IF b THEN 1 ELSE 0
-FC(x) == CASE x = "one" -> 0 [] x = "few" -> 1 [] x = "many" -> 2
+FC(x) == CASE x = "empty" -> 0 [] x = "shorter" -> 1 [] x = "longer" -> 2 [] x = "dir" -> 3 [] x = "readonly" -> 4
+           [] x = "one" -> 0 [] x = "few" -> 1 [] x = "many" -> 2
            [] x = "v1" -> 0 [] x = "v2" -> 1 [] x = "v3" -> 2 [] x = "v4" -> 3
            [] x = "none" -> 0 [] x = "zlib" -> 1 [] x = "bzip2" -> 2 [] x = "lzma" -> 3
            [] x = "all" -> 0 [] x = "some" -> 1 [] x = "missing" -> 2
+PipeMod == IF Thorough THEN 4 ELSE 128
 PipeHash(x) == (FC(x.files) + 3 * FC(x.version) + 5 * FC(x.compression) + 7 * B(x.listfile) + 11 * x.threads + 13 * B(x.preserve)
-                + 17 * FC(x.explicit) + 19 * B(x.skip) + 23 * B(x.chain)) % 32
-PipeCases == IF Thorough THEN Pipe ELSE {x \in Pipe : PipeHash(x) = SeedN % 32}
+                + 17 * FC(x.explicit) + 19 * B(x.skip) + 23 * B(x.chain) + 29 * FC(x.pre)) % PipeMod
+PipeCases == {x \in Pipe : PipeHash(x) = SeedN % PipeMod}
 
 All == SetToSeq(FmtCases) \o SetToSeq(Mpq1Cases) \o SetToSeq(PipeCases)
 Numbered == [i \in 1..Len(All) |-> [id |-> i] @@ All[i]]
